@@ -110,6 +110,10 @@ def synth(rng, lang):
         nerr = rng.choice([0, 0, 1, 1, 2, 3])
         for _ in range(nerr):
             msg = rng.choice(WORDS) + " " + rng.choice(["x", "String vs Int", "T1", "A<B>"])
+            if rng.random() < 0.1:
+                # compilers print fully qualified names in diagnostics
+                msg += {"java": ": java.lang.String cannot be converted to int", "kotlin": " of org.jetbrains.annotations.NotNull",
+                        "groovy": " java.lang.Object", "scala": " java.lang.String"}[lang]
             line, col = rng.randint(1, 300), rng.randint(1, 80)
             if lang == "java":
                 blocks.append(("err", f, "%s:%d: error: %s\n        int x = y;\n            ^\n" % (f, line, msg),
